@@ -110,7 +110,9 @@ type month struct{}
 
 // CalcSlot calculates field store slot index based on given timestamp and base time for month interval type
 func (m *month) CalcSlot(timestamp, baseTime, interval int64) int {
-	return int(((timestamp - baseTime) % timeutil.OneDay) / interval)
+	// NOTE: a family is a day of the local calendar, it has 25 hours when the clocks are set back,
+	// the offset must not be wrapped at 24 hours(the last hour would go to the slots of the first)
+	return int((timestamp - baseTime) / interval)
 }
 
 // GetSegment returns segment name by given timestamp for month interval type
